@@ -14,7 +14,7 @@ from mmv import util
 PROP = 'C20'
 LEVEL = 'exploration'
 RULE = ('Each case is a batch of generated lists (0-12 entries; single days "YYYY/MM/DD" and ranges '
-        '"YYYY/MM/DD - YYYY/MM/DD", years 1000-9000, spans crossing month / year / Feb-29 boundaries, '
+        '"YYYY/MM/DD - YYYY/MM/DD", years 2-9000, spans crossing month / year / Feb-29 boundaries, '
         'duplicates, nested and abutting ranges) run through find_days_to_exclude + expand_time_windows; the '
         'result is compared with a datetime.date model, and re-run on a permutation and on a duplicated copy '
         'of the list. Malformed lists (letters, impossible dates, wrong number of "-" parts incl. ISO dates, '
@@ -25,8 +25,8 @@ ASSUMPTIONS = ['strings pandas parses leniently but that are outside the documen
                'times of day, D/M/Y) are not generated',
                'malformed means: denotes no calendar day under any reading, or a reversed range']
 EXHAUSTIVE = {'quick': False, 'thorough': False}
-MINIMA = {'quick': {'returned_object_edits': 300, 'wellformed': 1500, 'malformed': 600, 'days_checked': 100000, 'distinct_nontrivial': 800},
-          'thorough': {'returned_object_edits': 4000, 'wellformed': 20000, 'malformed': 8000, 'days_checked': 2000000, 'distinct_nontrivial': 10000}}
+MINIMA = {'quick': {'parsed_window_reuse': 300, 'feat_year-below-1000': 50, 'returned_object_edits': 300, 'wellformed': 1500, 'malformed': 600, 'days_checked': 100000, 'distinct_nontrivial': 800},
+          'thorough': {'parsed_window_reuse': 4000, 'feat_year-below-1000': 700, 'returned_object_edits': 4000, 'wellformed': 20000, 'malformed': 8000, 'days_checked': 2000000, 'distinct_nontrivial': 10000}}
 N = {'quick': 48, 'thorough': 320}
 PER = {'quick': 60, 'thorough': 120}
 
@@ -47,7 +47,7 @@ def gen_case(tier, seed, idx):
 
 def fmt(d, r=None):
   if r is not None and r.random() < 0.15:
-    return '%d/%d/%d' % (d.year, d.month, d.day)       # un-padded variant of the same format
+    return ('%d/%d/%d' if d.year >= 1000 else '%04d/%d/%d') % (d.year, d.month, d.day)       # un-padded variant of the same format
   return '%04d/%02d/%02d' % (d.year, d.month, d.day)
 
 
@@ -64,7 +64,7 @@ def rand_day(r):
     first_next = datetime.date(y + (m == 12), (m % 12) + 1, 1)
     return first_next - datetime.timedelta(days=r.randrange(0, 4))
   if u < 0.55:     # far from the present: the format has four year digits
-    y = r.choice([1000, 1400, 1600, 1677, 2262, 2263, 2400, 3000, 5000, 9000])
+    y = r.choice([1000, 1400, 1600, 1677, 2262, 2263, 2400, 3000, 5000, 9000, 999, 400, 100, 99, 4, 2])
     return datetime.date(y, r.choice([2, 4, 9, 12]), 1) + datetime.timedelta(days=r.randrange(0, 40))
   return datetime.date(r.randrange(1700, 2201), 1, 1) + datetime.timedelta(days=r.randrange(0, 365))
 
@@ -91,10 +91,10 @@ def gen_list(r):
       else:
         a, b = a0, b0
     else:
-      a = anchor + datetime.timedelta(days=r.randrange(-40, 40)) if r.random() < 0.6 else rand_day(r)
+      a = anchor + datetime.timedelta(days=r.randrange(-40 if anchor.year > 2 else 0, 40)) if r.random() < 0.6 else rand_day(r)
       length = r.choice([0, 0, 1, 2, 6, 13, 30, 45, 100, 400]) if r.random() < 0.97 else 2000
       b = a + datetime.timedelta(days=length)
-    if b.year > 9990 or a.year < 1000:
+    if b.year > 9990:
       continue
     spans.append((a, b))
     if a == b and r.random() < 0.7:
@@ -118,7 +118,13 @@ def gen_list(r):
     feats.add('year-cross')
   if any(d.month == 2 and d.day == 29 for d in covered):
     feats.add('leap-day')
+  if any(a.year < 1000 for a, b in spans):
+    feats.add('year-below-1000')
+  LAST_SPANS[:] = spans
   return entries, covered, feats
+
+
+LAST_SPANS = []
 
 
 def to_date(ts):
@@ -173,6 +179,30 @@ def run_case(spec):
       violations.append({'clause': 'extra-day', 'mech': 'days-extra', 'detail': '%s: not covered by any entry: %s' % (where[:200], sorted(map(str, gs - covered))[:4])})
     if covered - gs:
       violations.append({'clause': 'missing-day', 'mech': 'days-missing', 'detail': '%s: covered but missing: %s' % (where[:200], sorted(map(str, covered - gs))[:4])})
+    # a caller may parse once and expand several selections of the parsed windows: the whole list first, then a
+    # sub-list of the SAME window objects, which must expand to exactly the days its own entries cover
+    spans = list(LAST_SPANS)
+    if len(entries) >= 2 and len(spans) == len(entries) and r.random() < 0.5:
+      pw = util.call(utils.find_days_to_exclude, list(entries))
+      if pw.ok and isinstance(pw.value, list) and len(pw.value) == len(entries):
+        util.call(utils.expand_time_windows, pw.value)
+        pick = sorted(r.sample(range(len(entries)), r.randrange(1, len(entries))))
+        sub = util.call(utils.expand_time_windows, [pw.value[i] for i in pick])
+        counters['parsed_window_reuse'] += 1
+        want_sub = set()
+        for i in pick:
+          d_ = spans[i][0]
+          while d_ <= spans[i][1]:
+            want_sub.add(d_)
+            d_ += datetime.timedelta(days=1)
+        if not sub.ok:
+          violations.append({'clause': 'purity', 'mech': 'days-window-reuse', 'detail': '%s: expanding a sub-list of already expanded windows raised %s' % (where[:200], sub.describe())})
+        else:
+          g4 = [to_date(ts)[0] for ts in sub.value]
+          if set(g4) != want_sub or len(g4) != len(set(g4)):
+            violations.append({'clause': 'purity', 'mech': 'days-window-reuse',
+                               'detail': '%s: after the whole parsed list was expanded once, the parsed windows of entries %r expand to %d days instead of %d' % (
+                                   where[:200], [entries[i] for i in pick], len(g4), len(want_sub))})
     # a caller may edit what it got back (extend the window list, change a window, clear the day list):
     # a later call with the same strings must not be affected
     if entries and r.random() < 0.4:
